@@ -130,6 +130,21 @@ def _consumer(repo, rep):
         "chameleon.zpt.template.PageTemplate.digest", "the flag is part of "
         "the module cache key (a strict and a non-strict compilation are "
         "never confused)", construct="hashed")
+    pf = repo.func("chameleon.zpt.template.PageTemplateFile.__init__")
+    lc = [n for n in ast.walk(pf.node) if isinstance(n, ast.Call)
+          and src(n.func) == "loader_class"]
+    ok = len(lc) == 1 and any(k.arg is None and src(k.value) == "config"
+                              for k in lc[0].keywords)
+    rep.check(ok, "R19.1", pf.qualname, "templates loaded through load: get "
+              "the parent's options unfiltered (**config), so a non-strict "
+              "template's sub-templates are non-strict too -- a False value "
+              "must not be dropped", construct="plumb-load", where=L.where(pf),
+              detail=str([src(x)[:80] for x in lc]))
+    tl = repo.func("chameleon.loader.TemplateLoader.load")
+    t2 = " ".join(src(x) for x in ast.walk(tl.node) if isinstance(x, ast.stmt))
+    rep.check("**self.kwargs" in t2, "R19.1", tl.qualname, "the loader "
+              "passes the stored options on to every template it creates",
+              construct="plumb-loader", where=L.where(tl))
     dv = repo.cls("chameleon.template.BaseTemplate").attrs.get("strict")
     rep.check(isinstance(dv, ast.Constant) and dv.value is True, "R19.1",
               "chameleon.template.BaseTemplate.strict",
